@@ -818,6 +818,19 @@ func (g *gen) kindExpr(kind string, t typ, d int) *ref.V {
 		}
 		lst := g.sub("dolist", "list", tL, d)
 		name, capt := g.loopName()
+		forcedList := g.force != nil && g.force.parent == "dolist" && g.force.pos == "list"
+		if v, ok := g.pickVar(false, tL); ok && !forcedList && g.chance(0.3) {
+			// the loop variable takes the name of the list variable its own
+			// list form reads (evaluated in the enclosing scope)
+			name = v.name
+			lst = sym(v.name)
+			if g.chance(0.4) {
+				lst = form(g.pick("cdr", "reverse"), lst)
+			}
+			if g.chance(0.5) {
+				lst = g.mark(lst)
+			}
+		}
 		spec := []*ref.V{sym(name), lst}
 		if t != tA || g.chance(0.6) {
 			// the result form sees the variable (as nil)
@@ -847,6 +860,12 @@ func (g *gen) kindExpr(kind string, t typ, d int) *ref.V {
 			}
 		}
 		name, capt := g.loopName()
+		forcedCnt := g.force != nil && g.force.parent == "dotimes" && g.force.pos == "count"
+		if v, ok := g.pickVar(false, tI); ok && !forcedCnt && g.chance(0.3) {
+			// the loop variable takes the name of a variable its count form reads
+			name = v.name
+			cnt = g.mark(form("min", num(3), form("max", num(0), sym(v.name))))
+		}
 		g.push(name, tI, capt, true)
 		spec := []*ref.V{sym(name), cnt}
 		if t != tA || g.chance(0.6) {
@@ -871,6 +890,9 @@ func (g *gen) kindExpr(kind string, t typ, d int) *ref.V {
 		var bound []nb
 		for i := 0; i < nv; i++ {
 			n, c := g.newName(avoid)
+			if rn, ok := g.reuseName(avoid); ok && g.chance(0.3) {
+				n = rn // shadows a variable the values form (already generated) may read
+			}
 			avoid[n] = true
 			names = append(names, sym(n))
 			bound = append(bound, nb{n, c})
